@@ -418,7 +418,8 @@ def lockstep_for(rel, stmt, a, b):
         assigned.add(nm)
     names = sorted((assigned | stored) - {idx})
     # ---- initiation: which modified variables agree at entry
-    sim = [nm for nm in names if nm in a.env and nm in b.env and rel.similar(a, b, nm, where + ".entry")]
+    skip = set(rel.c.options.get("rel_scratch", []))     # variables known to differ legitimately (saves the inference a re-analysis)
+    sim = [nm for nm in names if nm not in skip and nm in a.env and nm in b.env and rel.similar(a, b, nm, where + ".entry")]
     for (st, tag) in ((a, "1"), (b, "2")):
         for nm, expr in (spec_.get("invariant") or {}).items():
             saved, had = st.env.get(idx), idx in st.env
